@@ -13,10 +13,16 @@ void _inplace_conj(arr_cmplx& x) {
 }
 
 std::vector<cmplx_t> _irfft_coeffs(int n) noexcept {
-    assert(n % 4 == 0);
     const int n4 = n / 4;
     const int n2 = n / 2;
     std::vector<cmplx_t> res(n / 2);
+    if (n % 4 != 0) {
+        //the quarter-wave symmetry below needs n divisible by 4; otherwise fill exp(1i * 2 * pi * i / n) directly
+        for (int i = 0; i < n2; ++i) {
+            res[i] = {std::cos(2 * pi * i / n), std::sin(2 * pi * i / n)};
+        }
+        return res;
+    }
     res[0] = {1, 0};
     res[n4] = {0, 1};
     //use only first n/4 samples
